@@ -17,7 +17,7 @@ LEVEL = "model_checking"
 
 NOGT = "<nogt>"
 NOGT_PS = "<nogt>:PS:PQ"  # no genotype, but phase-set and quality values (in a GT-less record if no other sample has a GT)
-KINDS = [".", "./.", "0/.", "./1", "0", "1", "0/1", "1/0", "1|0", "0|1|1", "1/0/0", "0|.|1", NOGT, "0|1:PS", "0/1:HP:PQ", NOGT_PS, ".|1", "0|0", ".|."]
+KINDS = [".", "./.", "0/.", "./1", "0", "1", "0/1", "1/0", "1|0", "0|1|1", "1/0/0", "0|.|1", NOGT, "0|1:PS", "0/1:HP:PQ", NOGT_PS, ".|1", "0|0", ".|.", "0|1/1"]
 DIPLOID = {"./.", "0/.", "./1", "0/1", "1/0", "1|0", "0|1:PS", "0/1:HP:PQ", ".|1", "0|0", ".|."}
 POSITIONS = [60, 100, 140, 180]
 
